@@ -107,6 +107,13 @@ Step ==
      THEN \* C16 with two samples racing: once both have returned, the last value delivered equals the estimate
           /\ UNCHANGED <<ok, cfg, st>>
           /\ e.last # e.est => Rej(e, "notify", "two concurrent samples: the last value delivered to the listener differs from EstimatedLimit", [est |-> e.est, last |-> e.last])
+     ELSE IF e.ev = "Dwell"
+     THEN \* C04 on a grid of (smoothing, bound) pairs: the range of the reported estimate while the algorithm is pinned on its
+          \* floor and then on its ceiling
+          /\ UNCHANGED <<ok, cfg, st>>
+          /\ (e.panic \/ ~e.minok \/ e.minest < e.floor \/ e.maxest > e.ceil) =>
+                Rej(e, "bounds", IF e.panic THEN "OnSample or EstimatedLimit panicked" ELSE IF ~e.minok THEN "the estimate is not a finite integer"
+                                 ELSE IF e.minest < e.floor THEN "estimate below the floor" ELSE "estimate above the ceiling", [floor |-> e.floor, ceil |-> e.ceil])
      ELSE IF e.ev = "Race"
      THEN \* C06 / C07 with two samples racing (one parked while it emits its metrics): OnSample is atomic, i.e. the
           \* estimate once both have returned is the one some serial order of the two produces on identically prepared twins
